@@ -53,6 +53,7 @@ func main() {
 	shard := flag.Int("shard", 0, "shard index")
 	nshards := flag.Int("nshards", 1, "number of shards")
 	cases := flag.Int("cases", 100, "total number of cases over all shards")
+	order := flag.Int("order", 0, "order in which the shard's cases run: 0 ascending, 1 descending, n>1 shuffled by n")
 	minOps := flag.Int("minops", 150, "min ops per history")
 	maxOps := flag.Int("maxops", 400, "max ops per history")
 	sweepEvery := flag.Int("sweep", 1, "sweep every n ops")
@@ -64,6 +65,7 @@ func main() {
 	digest := flag.Bool("digest", false, "emit determinism digests")
 	replay := flag.Int("replaychecks", 0, "replay-twin checkpoints per case")
 	maxComps := flag.Int("maxcomps", 256, "component capacity of this build (64 under ark_tiny)")
+	latePct := flag.Int("late", 0, "share of cases with late type registration (0: default)")
 	avoid := flag.String("avoid", "", "comma-separated known-finding avoid rules")
 	shrinkBounds := flag.Bool("shrinkbounds", false, "check capacity bounds after unbounded Shrink")
 	shrinkConv := flag.Bool("shrinkconv", false, "check convergence of Shrink(0)")
@@ -83,7 +85,7 @@ func main() {
 	}
 	p := pf()
 	o := &eng.Opts{MinOps: *minOps, MaxOps: *maxOps, SweepEvery: *sweepEvery, DeepEvery: *deepEvery, QueriesPerSweep: *queries,
-		StandingEvery: *standing, StatsEvery: *statsEvery, Twin: *twin, Digest: *digest, ReplayChecks: *replay, MaxComponents: *maxComps,
+		StandingEvery: *standing, StatsEvery: *statsEvery, Twin: *twin, Digest: *digest, ReplayChecks: *replay, MaxComponents: *maxComps, LatePct: *latePct,
 		Avoid: map[string]bool{}, ShrinkBounds: *shrinkBounds, ShrinkConverge: *shrinkConv, DeadTargetQueries: *deadQ}
 	for _, a := range strings.Split(*avoid, ",") {
 		if a != "" {
@@ -136,7 +138,24 @@ func main() {
 			}
 		}
 	}
+	// the order in which a process runs its cases must not matter: worlds share no state
+	var list []int
 	for c := *shard; c < *cases; c += *nshards {
+		list = append(list, c)
+	}
+	switch {
+	case *order == 1:
+		for i, j := 0, len(list)-1; i < j; i, j = i+1, j-1 {
+			list[i], list[j] = list[j], list[i]
+		}
+	case *order > 1:
+		r := eng.NewRng(uint64(*order) * 0x9e3779b97f4a7c15)
+		for i := len(list) - 1; i > 0; i-- {
+			j := r.Intn(i + 1)
+			list[i], list[j] = list[j], list[i]
+		}
+	}
+	for _, c := range list {
 		if *only >= 0 && c != *only {
 			continue
 		}
